@@ -1,3 +1,4 @@
+import os.path
 import re
 import stat
 
@@ -50,6 +51,11 @@ class BuckGophermapHandler(BaseHandler):
             and stat.S_ISREG(self.statresult[stat.ST_MODE])
         ):
             selector = self.getselector()
+            # Relative links are relative to the directory that the
+            # gophermap file is in, not to the file itself.
+            self.selectorbase = os.path.dirname(selector)
+            if self.selectorbase == "/":
+                self.selectorbase = ""  # Avoid dup slashes
         else:
             selector = self.selectorbase + "/gophermap"
 
